@@ -366,7 +366,7 @@ def obligations(tier):
                     continue
                 if q and kind == 'type' and not name.startswith(('PACK', 'UNPAIR 3', 'GET 3', 'UPDATE 2')):
                     continue
-                maxann = 2 if (q and n_leaves >= 4) else None
+                maxann = (2 if n_leaves >= 4 else None) if q else (None if n_leaves <= 3 else (3 if n_leaves == 4 else 2))      # sized by wall time
                 obs.append(Ob(f'{sname}/{kind}/{name}', 'bvx', sym_comb, conc_comb, {'type': s, 'kind': kind, 'ins': ins, 'name': name, 'maxann': maxann},
                               timeout=t, opts={'W': 96},
                               bounds=f'{s}: every non-empty subset of nodes' + (' with <= 2 annotated nodes' if maxann else '') + f' carries a {kind} annotation; symbolic leaves',
